@@ -360,7 +360,7 @@ def facts(ctx):
 
 HANDLE_RE = re.compile(r"^\*(?:mut|const)\s+(\w+)$")
 # pointer parameters that must not be NULL, by declared type (user contexts and callbacks are pass-through values)
-REQUIRED_PTR = re.compile(r"^(\*(?:mut|const)\s+(c_char|c_uchar|u8|usize|C2paHashType|\*const c_uchar)|&\s*\w+|\*const c_char \(field\))$")
+REQUIRED_PTR = re.compile(r"^(\*(?:mut|const)\s+(c_char|c_uchar|u8|usize|C2paHashType|C2paSignerInfo|\*const c_uchar)|&\s*\w+|\*const c_char \(field\))$")
 # documented as optional in the doc comments of c_api.rs ("or NULL", "may be NULL", "can be NULL")
 OPTIONAL = {("c2pa_signer_create", "tsa_url"), ("c2pa_signer_from_info", "signer_info.ta_url"),
             ("c2pa_builder_sign_data_hashed_embeddable", "asset"), ("c2pa_builder_placeholder", "manifest_bytes_ptr"),
@@ -369,12 +369,9 @@ OPTIONAL = {("c2pa_signer_create", "tsa_url"), ("c2pa_signer_from_info", "signer
 CLS = {"NullParameter": "CNull", "WrongPointerType": "CWrongType", "UntrackedPointer": "CUntracked",
        "StringTooLong": "CStringTooLong", "InvalidBufferSize": "CBufSize"}
 UNGUARDED = ("GRaw", "GRawOpt", "GMem", "GOwn")
+# parameters still dereferenced without a registry check (the others were repaired by fix commit 8b6120a89)
 KNOWN_SUSPECTS = {
-    "F-FFI-RAWSTREAM": [["c2pa_builder_add_resource", "stream"], ["c2pa_reader_resource_to_stream", "stream"],
-                        ["c2pa_builder_sign_data_hashed_embeddable", "asset"]],
-    "F-FFI-OUTNULL": [["c2pa_reader_supported_mime_types", "count"], ["c2pa_builder_supported_mime_types", "count"]],
     "F-FFI-STRARRAY": [["c2pa_free_string_array", "ptr"]],
-    "F-FFI-INFONULL": [["c2pa_signer_from_info", "signer_info"]],
 }
 
 
@@ -748,8 +745,11 @@ class Gen:
                     args.append({"out": False})
                 else:
                     args.append({"out": True if (force_valid or bad or i in raw) else rng.random() < 0.9})
-            elif ty.startswith("&"):
+            elif ty.startswith("&") or "C2paSignerInfo" in ty:
                 good = {"alg": "ed25519", "cert": "@cert", "key": "@key"}
+                if bad and bad[0] == i:
+                    args.append({"info": None})
+                    continue
                 if not (force_valid or bad) and rng.random() < 0.3:
                     good = rng.choice([{"alg": "BadAlg", "cert": "c", "key": "k"}, {"cert": "@cert", "key": "@key"}, {"alg": "ed25519", "key": "@key"}])
                 args.append({"info": good})
